@@ -53,7 +53,7 @@ def _resolve(p, dir_fd=None, frame_depth=2):
         return repr(p), "<unresolvable>"
     if not os.path.isabs(s):
         base = None
-        if isinstance(dir_fd, int):
+        if isinstance(dir_fd, int) and dir_fd >= 0:
             base = _fd_path(dir_fd)
         else:
             # shutil._rmtree_safe_fd opens children by bare name relative to its directory descriptor `topfd`
